@@ -21,14 +21,26 @@
 //!
 //! Verdict = the property's clauses recomputed from scratch from the resolved op history
 //! (`eval_single` / `eval_multi`), compared with what the real action reports.
+use bytes::Bytes;
 use futures::channel::oneshot;
+use futures::Stream;
+use http::Method;
 use hx_common::{parse_cli, quiet_panics, sched, Cmd, Rng};
+use leptos_server::{ArcServerAction, ArcServerMultiAction, ServerAction, ServerActionError, ServerMultiAction};
 use reactive_graph::actions::{
     Action, ActionAbortHandle, ArcAction, ArcMultiAction, ArcSubmission, MultiAction, Submission,
 };
-use reactive_graph::owner::Owner;
+use reactive_graph::diagnostics::suppress_resource_load;
+use reactive_graph::owner::{provide_context, Owner};
 use reactive_graph::prelude::*;
-use std::collections::BTreeSet;
+use server_fn::client::Client;
+use server_fn::codec::{Json, PostUrl};
+use server_fn::error::{FromServerFnError, ServerFnErrorErr, ServerFnUrlError};
+use server_fn::request::ClientReq;
+use server_fn::response::ClientRes;
+use server_fn::{Http, ServerFn, ServerFnError};
+use std::cell::Cell;
+use std::collections::{BTreeSet, HashMap};
 use std::future::Future;
 use std::io::Write as _;
 use std::panic::{catch_unwind, AssertUnwindSafe};
@@ -46,10 +58,20 @@ enum Kind {
     Arena,
     ArenaLocal,
     ArenaUnsync,
+    ArenaUnsyncLocal,
+    ServerArc,
+    ServerArena,
+    ServerArcXpath,
+    ServerArenaXpath,
     MultiArc,
     MultiArena,
+    ServerMultiArc,
+    ServerMultiArena,
 }
-const SINGLE_KINDS: [&str; 6] = ["arc", "arc-local", "arc-unsync", "arena", "arena-local", "arena-unsync"];
+const SINGLE_KINDS: [&str; 7] =
+    ["arc", "arc-local", "arc-unsync", "arena", "arena-local", "arena-unsync", "arena-unsync-local"];
+const SERVER_KINDS: [&str; 4] = ["server-arc", "server-arena", "server-arc-xpath", "server-arena-xpath"];
+const MULTI_KINDS: [&str; 4] = ["multi-arc", "multi-arena", "server-multi-arc", "server-multi-arena"];
 
 fn kind_of(s: &str) -> Option<Kind> {
     Some(match s {
@@ -59,10 +81,52 @@ fn kind_of(s: &str) -> Option<Kind> {
         "arena" => Kind::Arena,
         "arena-local" => Kind::ArenaLocal,
         "arena-unsync" => Kind::ArenaUnsync,
+        "arena-unsync-local" => Kind::ArenaUnsyncLocal,
+        "server-arc" => Kind::ServerArc,
+        "server-arena" => Kind::ServerArena,
+        "server-arc-xpath" => Kind::ServerArcXpath,
+        "server-arena-xpath" => Kind::ServerArenaXpath,
         "multi-arc" => Kind::MultiArc,
         "multi-arena" => Kind::MultiArena,
+        "server-multi-arc" => Kind::ServerMultiArc,
+        "server-multi-arena" => Kind::ServerMultiArena,
         _ => return None,
     })
+}
+impl Kind {
+    fn name(self) -> &'static str {
+        match self {
+            Kind::Arc => "arc",
+            Kind::ArcLocal => "arc-local",
+            Kind::ArcUnsync => "arc-unsync",
+            Kind::Arena => "arena",
+            Kind::ArenaLocal => "arena-local",
+            Kind::ArenaUnsync => "arena-unsync",
+            Kind::ArenaUnsyncLocal => "arena-unsync-local",
+            Kind::ServerArc => "server-arc",
+            Kind::ServerArena => "server-arena",
+            Kind::ServerArcXpath => "server-arc-xpath",
+            Kind::ServerArenaXpath => "server-arena-xpath",
+            Kind::MultiArc => "multi-arc",
+            Kind::MultiArena => "multi-arena",
+            Kind::ServerMultiArc => "server-multi-arc",
+            Kind::ServerMultiArena => "server-multi-arena",
+        }
+    }
+    fn is_multi(self) -> bool {
+        matches!(self, Kind::MultiArc | Kind::MultiArena | Kind::ServerMultiArc | Kind::ServerMultiArena)
+    }
+    fn is_server(self) -> bool {
+        self.name().starts_with("server-")
+    }
+    /// an arena handle (`Action`, `MultiAction`, `ServerAction`, `ServerMultiAction`): can be disposed
+    fn is_arena(self) -> bool {
+        self.name().contains("arena")
+    }
+    /// kinds whose plain `dispatch` op goes through `dispatch_local`
+    fn default_local(self) -> bool {
+        matches!(self, Kind::ArcLocal | Kind::ArenaLocal | Kind::ArenaUnsyncLocal)
+    }
 }
 
 /// what the action function hands out: the receiver staged by the harness for this dispatch
@@ -92,123 +156,497 @@ fn action_fn(
     }
 }
 
-enum Single {
-    A(ArcAction<u32, u32>),
-    R(Action<u32, u32>),
+// ---- a hand-made server function whose client half is driven by the harness (leptos_server wrappers)
+
+/// values the harness resolves a request with: `< 1000` = `Ok(v)` (HTTP 200, JSON body),
+/// `>= 1000` = `Err(ServerFnError::ServerError("<v>"))` (HTTP 500, the error's wire encoding)
+const ERR_BASE: u32 = 1000;
+
+#[derive(Clone, Debug, PartialEq, serde::Serialize, serde::Deserialize)]
+pub struct Echo {
+    x: u32,
+    /// index of the dispatch (the staged client finds its receiver by it)
+    k: usize,
 }
-impl Single {
-    fn new(kind: Kind, v0: Option<u32>, slot: SharedSlot) -> Self {
-        let f = action_fn(slot);
-        match kind {
-            Kind::Arc | Kind::ArcLocal => Single::A(ArcAction::new_with_value(v0, f)),
-            Kind::ArcUnsync => Single::A(ArcAction::new_unsync_with_value(v0, f)),
-            Kind::Arena => Single::R(Action::new_with_value(v0, f)),
-            Kind::ArenaLocal => Single::R(Action::new_local_with_value(v0, f)),
-            Kind::ArenaUnsync => Single::R(Action::new_unsync_with_value(v0, f)),
-            _ => unreachable!(),
-        }
-    }
-    fn dispatch(&self, local: bool, i: u32) -> ActionAbortHandle {
-        match (self, local) {
-            (Single::A(a), false) => a.dispatch(i),
-            (Single::A(a), true) => a.dispatch_local(i),
-            (Single::R(a), false) => a.dispatch(i),
-            (Single::R(a), true) => a.dispatch_local(i),
-        }
-    }
-    fn clear(&self) {
-        match self {
-            Single::A(a) => a.clear(),
-            Single::R(a) => a.clear(),
-        }
-    }
-    /// (pending, version, value, input), all read untracked at top level
-    fn read(&self) -> (bool, usize, Option<u32>, Option<u32>) {
-        match self {
-            Single::A(a) => (
-                a.pending().get_untracked(),
-                a.version().get_untracked(),
-                a.value().get_untracked(),
-                a.input().get_untracked(),
-            ),
-            Single::R(a) => (
-                a.pending().get_untracked(),
-                a.version().get_untracked(),
-                a.value().get_untracked(),
-                a.input().get_untracked(),
-            ),
-        }
+type EchoOut = Result<u32, ServerFnError>;
+
+impl ServerFn for Echo {
+    const PATH: &'static str = "/api/c17_echo";
+    type Client = StagedClient;
+    type Server = server_fn::mock::BrowserMockServer;
+    type Protocol = Http<PostUrl, Json>;
+    type Output = u32;
+    type Error = ServerFnError;
+    type InputStreamError = ServerFnError;
+    type OutputStreamError = ServerFnError;
+    fn run_body(self) -> impl Future<Output = Result<u32, ServerFnError>> + Send {
+        async move { Ok(self.x) }
     }
 }
 
-enum Multi {
-    A(ArcMultiAction<u32, u32>),
-    R(MultiAction<u32, u32>),
+struct Staged {
+    receivers: HashMap<usize, (oneshot::Receiver<u32>, Arc<AtomicBool>)>,
+    /// (k, x) of every request the client half was asked to send
+    seen: Vec<(usize, u32)>,
+    bad_request: bool,
 }
-type SubRec = (Option<u32>, Option<u32>, bool, bool);
-impl Multi {
-    fn new(kind: Kind, slot: SharedSlot) -> Self {
-        let f = action_fn(slot);
-        match kind {
-            Kind::MultiArc => Multi::A(ArcMultiAction::new(f)),
-            _ => Multi::R(MultiAction::new(f)),
-        }
+static STAGED: Mutex<Option<Staged>> = Mutex::new(None);
+fn staged<R>(f: impl FnOnce(&mut Staged) -> R) -> R {
+    let mut g = STAGED.lock().unwrap();
+    f(g.get_or_insert_with(|| Staged { receivers: HashMap::new(), seen: vec![], bad_request: false }))
+}
+
+/// what the client half builds (`ClientReq`), modelled on request/reqwest.rs (as in hx-c13)
+pub struct LoopReq {
+    path: String,
+    body: Vec<u8>,
+}
+fn unsupported<E: FromServerFnError>(what: &str) -> E {
+    E::from_server_fn_error(ServerFnErrorErr::UnsupportedRequestMethod(what.into()))
+}
+impl<E: FromServerFnError> ClientReq<E> for LoopReq {
+    type FormData = ();
+    fn try_new_req_query(path: &str, _: &str, _: &str, query: &str, _: Method) -> Result<Self, E> {
+        Ok(LoopReq { path: path.into(), body: query.as_bytes().to_vec() })
     }
-    fn dispatch(&self, i: u32) {
-        match self {
-            Multi::A(a) => a.dispatch(i),
-            Multi::R(a) => a.dispatch(i),
-        }
+    fn try_new_req_text(path: &str, _: &str, _: &str, body: String, _: Method) -> Result<Self, E> {
+        Ok(LoopReq { path: path.into(), body: body.into_bytes() })
     }
-    fn dispatch_sync(&self, v: u32) {
-        match self {
-            Multi::A(a) => a.dispatch_sync(v),
-            Multi::R(a) => a.dispatch_sync(v),
-        }
+    fn try_new_req_bytes(path: &str, _: &str, _: &str, body: Bytes, _: Method) -> Result<Self, E> {
+        Ok(LoopReq { path: path.into(), body: body.to_vec() })
     }
-    fn subs(&self) -> Vec<ArcSubmission<u32, u32>> {
-        match self {
-            Multi::A(a) => a.submissions().get_untracked(),
-            Multi::R(a) => a.submissions().get_untracked(),
-        }
+    fn try_new_req_form_data(_: &str, _: &str, _: &str, _: (), _: Method) -> Result<Self, E> {
+        Err(unsupported("form data"))
     }
-    fn version(&self) -> usize {
-        match self {
-            Multi::A(a) => a.version().get_untracked(),
-            Multi::R(a) => a.version().get_untracked(),
-        }
+    fn try_new_req_multipart(_: &str, _: &str, _: (), _: Method) -> Result<Self, E> {
+        Err(unsupported("multipart"))
     }
-    fn cancel(&self, s: usize) {
-        let subs = self.subs();
-        if let Some(sub) = subs.get(s) {
-            match self {
-                Multi::A(_) => sub.cancel(),
-                // the arena flavour of the record
-                Multi::R(_) => Submission::from(sub.clone()).cancel(),
+    fn try_new_req_streaming(
+        _: &str,
+        _: &str,
+        _: &str,
+        _: impl Stream<Item = Bytes> + Send + 'static,
+        _: Method,
+    ) -> Result<Self, E> {
+        Err(unsupported("streaming"))
+    }
+}
+
+pub struct LoopRes {
+    status: u16,
+    body: Bytes,
+}
+impl<E: FromServerFnError> ClientRes<E> for LoopRes {
+    async fn try_into_string(self) -> Result<String, E> {
+        String::from_utf8(self.body.to_vec())
+            .map_err(|e| E::from_server_fn_error(ServerFnErrorErr::Deserialization(e.to_string())))
+    }
+    async fn try_into_bytes(self) -> Result<Bytes, E> {
+        Ok(self.body)
+    }
+    fn try_into_stream(self) -> Result<impl Stream<Item = Result<Bytes, Bytes>> + Send + Sync + 'static, E> {
+        Ok(futures::stream::iter(vec![Ok(self.body)]))
+    }
+    fn status(&self) -> u16 {
+        self.status
+    }
+    fn status_text(&self) -> String {
+        self.status.to_string()
+    }
+    fn location(&self) -> String {
+        String::new()
+    }
+    fn has_redirect(&self) -> bool {
+        false
+    }
+}
+
+/// the client half: the "network" is a oneshot the harness resolves on `ready k v`
+pub struct StagedClient;
+impl<E, I, O> Client<E, I, O> for StagedClient
+where
+    E: FromServerFnError + Send,
+    I: FromServerFnError,
+    O: FromServerFnError,
+{
+    type Request = LoopReq;
+    type Response = LoopRes;
+
+    fn send(req: Self::Request) -> impl Future<Output = Result<Self::Response, E>> + Send {
+        async move {
+            // the request the wrapper built: PostUrl = form-urlencoded `x=<input>&k=<index>` to S::PATH
+            let mut x = None;
+            let mut k = None;
+            for (key, v) in url::form_urlencoded::parse(&req.body) {
+                match key.as_ref() {
+                    "x" => x = v.parse::<u32>().ok(),
+                    "k" => k = v.parse::<usize>().ok(),
+                    _ => {}
+                }
+            }
+            // (the Content-Type/Accept pair is not checked here: it is C13's business)
+            let ok_shape = req.path == Echo::PATH;
+            let staged_rx = staged(|s| {
+                if !ok_shape || x.is_none() || k.is_none() {
+                    s.bad_request = true;
+                }
+                if let (Some(x), Some(k)) = (x, k) {
+                    s.seen.push((k, x));
+                }
+                k.and_then(|k| s.receivers.remove(&k))
+            });
+            let Some((rx, body_done)) = staged_rx else {
+                return Err(E::from_server_fn_error(ServerFnErrorErr::Request("no receiver staged".into())));
+            };
+            let v = rx.await.unwrap_or(u32::MAX);
+            body_done.store(true, SeqCst);
+            if v < ERR_BASE {
+                Ok(LoopRes { status: 200, body: Bytes::from(serde_json::to_vec(&v).unwrap()) })
+            } else {
+                let e: ServerFnError = ServerFnError::ServerError(v.to_string());
+                Ok(LoopRes { status: 500, body: e.ser() })
             }
         }
     }
-    fn read(&self) -> Vec<SubRec> {
-        self.subs()
-            .iter()
-            .map(|s| match self {
-                Multi::A(_) => (
-                    s.input().get_untracked(),
-                    s.value().get_untracked(),
-                    s.pending().get_untracked(),
-                    s.canceled().get_untracked(),
+
+    #[allow(unreachable_code)]
+    fn open_websocket(
+        _path: &str,
+    ) -> impl Future<
+        Output = Result<
+            (
+                impl Stream<Item = Result<Bytes, Bytes>> + Send + 'static,
+                impl futures::Sink<Result<Bytes, Bytes>> + Send + 'static,
+            ),
+            E,
+        >,
+    > + Send {
+        async {
+            Err::<
+                (
+                    futures::stream::Once<std::future::Ready<Result<Bytes, Bytes>>>,
+                    futures::sink::Drain<Result<Bytes, Bytes>>,
                 ),
-                Multi::R(_) => {
+                _,
+            >(E::from_server_fn_error(ServerFnErrorErr::Request("no websocket".into())))
+        }
+    }
+
+    fn spawn(_future: impl Future<Output = ()> + Send + 'static) {}
+}
+
+/// canonical number of a server action's value: `Ok(n)` = n, `Err(ServerError("<m>"))` = m (>= 1000)
+fn echo_out(o: &EchoOut) -> u32 {
+    match o {
+        Ok(n) if *n < ERR_BASE => *n,
+        Ok(n) => 2_000_000 + n, // an Ok value in the error range: never produced by the staged client
+        Err(ServerFnError::ServerError(m)) => m.parse::<u32>().ok().filter(|m| *m >= ERR_BASE).unwrap_or(3_000_000),
+        Err(_) => 3_000_001,
+    }
+}
+fn echo_of(v: u32) -> EchoOut {
+    if v < ERR_BASE {
+        Ok(v)
+    } else {
+        Err(ServerFnError::ServerError(v.to_string()))
+    }
+}
+/// the `__err` query value the server integration would hand to `ServerActionError` for this error
+fn encoded_url_error(v: u32) -> String {
+    let e: ServerFnError = ServerFnError::ServerError(v.to_string());
+    let url = ServerFnUrlError::new(Echo::PATH, e).to_url("http://localhost/").expect("url");
+    url.query_pairs().find(|(k, _)| k == "__err").map(|(_, v)| v.to_string()).expect("__err")
+}
+
+// ---- uniform access to the eight single-action flavours
+
+type Obs = (bool, usize, Option<u32>, Option<u32>);
+
+/// `T` as a wrapper around itself (the leptos_server wrappers are wrappers with `Deref`)
+#[derive(Clone)]
+struct Plain<T>(T);
+impl<T> std::ops::Deref for Plain<T> {
+    type Target = T;
+    fn deref(&self) -> &T {
+        &self.0
+    }
+}
+
+trait SingleAct {
+    fn dispatch(&self, local: bool, i: u32, k: usize) -> ActionAbortHandle;
+    fn clear(&self);
+    /// (pending, version, value, input) through the handle, all read untracked at top level
+    fn read(&self) -> Obs;
+    /// the same four through signals obtained NOW (under the current owner), readable later
+    fn retain(&self) -> Box<dyn Fn() -> Obs>;
+    /// `Dispose::dispose` of an arena handle
+    fn dispose(&self);
+}
+
+struct Conv<I, O> {
+    mk: fn(u32, usize) -> I,
+    inp: fn(&I) -> u32,
+    out: fn(&O) -> u32,
+}
+impl<I, O> Clone for Conv<I, O> {
+    fn clone(&self) -> Self {
+        *self
+    }
+}
+impl<I, O> Copy for Conv<I, O> {}
+
+struct ArcAct<W, I, O> {
+    w: W,
+    c: Conv<I, O>,
+}
+impl<W, I, O> SingleAct for ArcAct<W, I, O>
+where
+    W: std::ops::Deref<Target = ArcAction<I, O>> + Clone,
+    I: Clone + Send + Sync + 'static,
+    O: Clone + Send + Sync + 'static,
+{
+    fn dispatch(&self, local: bool, i: u32, k: usize) -> ActionAbortHandle {
+        let input = (self.c.mk)(i, k);
+        // every third dispatch goes through a clone of the (wrapper of the) action: clones share the action
+        let w = self.w.clone();
+        let w: &W = if k % 3 == 2 { &w } else { &self.w };
+        if local {
+            w.dispatch_local(input)
+        } else {
+            w.dispatch(input)
+        }
+    }
+    fn clear(&self) {
+        self.w.clear()
+    }
+    fn read(&self) -> Obs {
+        (
+            self.w.pending().get_untracked(),
+            self.w.version().get_untracked(),
+            self.w.value().get_untracked().as_ref().map(self.c.out),
+            self.w.input().get_untracked().as_ref().map(self.c.inp),
+        )
+    }
+    fn retain(&self) -> Box<dyn Fn() -> Obs> {
+        let (p, ver, val, inp, c) = (self.w.pending(), self.w.version(), self.w.value(), self.w.input(), self.c);
+        Box::new(move || {
+            (
+                p.get_untracked(),
+                ver.get_untracked(),
+                val.get_untracked().as_ref().map(c.out),
+                inp.get_untracked().as_ref().map(c.inp),
+            )
+        })
+    }
+    fn dispose(&self) {}
+}
+
+struct ArenaAct<W, I: 'static, O: 'static> {
+    w: W,
+    c: Conv<I, O>,
+}
+impl<W, I, O> SingleAct for ArenaAct<W, I, O>
+where
+    W: std::ops::Deref<Target = Action<I, O>> + Clone,
+    I: Clone + Send + Sync + 'static,
+    O: Clone + Send + Sync + 'static,
+{
+    fn dispatch(&self, local: bool, i: u32, k: usize) -> ActionAbortHandle {
+        let input = (self.c.mk)(i, k);
+        // every third dispatch goes through a copy of the (wrapper of the) handle
+        let w = self.w.clone();
+        let w: &W = if k % 3 == 2 { &w } else { &self.w };
+        if local {
+            w.dispatch_local(input)
+        } else {
+            w.dispatch(input)
+        }
+    }
+    fn clear(&self) {
+        self.w.clear()
+    }
+    fn read(&self) -> Obs {
+        (
+            self.w.pending().get_untracked(),
+            self.w.version().get_untracked(),
+            self.w.value().get_untracked().as_ref().map(self.c.out),
+            self.w.input().get_untracked().as_ref().map(self.c.inp),
+        )
+    }
+    fn retain(&self) -> Box<dyn Fn() -> Obs> {
+        let (p, ver, val, inp, c) = (self.w.pending(), self.w.version(), self.w.value(), self.w.input(), self.c);
+        Box::new(move || {
+            (
+                p.get_untracked(),
+                ver.get_untracked(),
+                val.get_untracked().as_ref().map(c.out),
+                inp.get_untracked().as_ref().map(c.inp),
+            )
+        })
+    }
+    fn dispose(&self) {
+        let a: Action<I, O> = *self.w;
+        a.dispose()
+    }
+}
+
+const PLAIN: Conv<u32, u32> = Conv { mk: |i, _| i, inp: |i| *i, out: |o| *o };
+const ECHO: Conv<Echo, EchoOut> = Conv { mk: |x, k| Echo { x, k }, inp: |e| e.x, out: echo_out };
+
+fn new_single(kind: Kind, v0: Option<u32>, slot: SharedSlot) -> Box<dyn SingleAct> {
+    let f = action_fn(slot);
+    match kind {
+        Kind::Arc | Kind::ArcLocal => Box::new(ArcAct { w: Plain(ArcAction::new_with_value(v0, f)), c: PLAIN }),
+        Kind::ArcUnsync => Box::new(ArcAct { w: Plain(ArcAction::new_unsync_with_value(v0, f)), c: PLAIN }),
+        Kind::Arena => Box::new(ArenaAct { w: Plain(Action::new_with_value(v0, f)), c: PLAIN }),
+        Kind::ArenaLocal => Box::new(ArenaAct { w: Plain(Action::new_local_with_value(v0, f)), c: PLAIN }),
+        Kind::ArenaUnsync => Box::new(ArenaAct { w: Plain(Action::new_unsync_with_value(v0, f)), c: PLAIN }),
+        Kind::ArenaUnsyncLocal => {
+            Box::new(ArenaAct { w: Plain(Action::new_unsync_local_with_value(v0, f)), c: PLAIN })
+        }
+        // the wrappers read their initial (error) value from a `ServerActionError` context
+        Kind::ServerArc => Box::new(ArcAct { w: ArcServerAction::<Echo>::new(), c: ECHO }),
+        Kind::ServerArena => Box::new(ArenaAct { w: ServerAction::<Echo>::new(), c: ECHO }),
+        Kind::ServerArcXpath => Box::new(ArcAct { w: ArcServerAction::<Echo>::default(), c: ECHO }),
+        Kind::ServerArenaXpath => Box::new(ArenaAct { w: ServerAction::<Echo>::default(), c: ECHO }),
+        _ => unreachable!(),
+    }
+}
+
+// ---- the four multi-action flavours
+
+type SubRec = (Option<u32>, Option<u32>, bool, bool);
+type MObs = (usize, Vec<SubRec>);
+
+trait MultiAct {
+    fn dispatch(&self, i: u32, k: usize);
+    fn dispatch_sync(&self, v: u32);
+    fn cancel(&self, s: usize);
+    fn read(&self) -> MObs;
+    fn retain(&self) -> Box<dyn Fn() -> MObs>;
+    /// `cancel` through the submissions signal obtained NOW (usable after the handle is disposed)
+    fn retain_cancel(&self) -> Box<dyn Fn(usize)>;
+    fn dispose(&self);
+}
+
+fn read_arc_sub<I: Clone + 'static, O: Clone + 'static>(s: &ArcSubmission<I, O>, c: Conv<I, O>) -> SubRec {
+    (
+        s.input().get_untracked().as_ref().map(c.inp),
+        s.value().get_untracked().as_ref().map(c.out),
+        s.pending().get_untracked(),
+        s.canceled().get_untracked(),
+    )
+}
+
+struct ArcMulti<W, I, O> {
+    w: W,
+    c: Conv<I, O>,
+    of: fn(u32) -> O,
+}
+impl<W, I, O> MultiAct for ArcMulti<W, I, O>
+where
+    W: std::ops::Deref<Target = ArcMultiAction<I, O>>,
+    I: Clone + Send + Sync + 'static,
+    O: Clone + Send + Sync + 'static,
+{
+    fn dispatch(&self, i: u32, k: usize) {
+        self.w.dispatch((self.c.mk)(i, k))
+    }
+    fn dispatch_sync(&self, v: u32) {
+        self.w.dispatch_sync((self.of)(v))
+    }
+    fn cancel(&self, s: usize) {
+        if let Some(sub) = self.w.submissions().get_untracked().get(s) {
+            sub.cancel()
+        }
+    }
+    fn read(&self) -> MObs {
+        let subs = self.w.submissions().get_untracked();
+        (self.w.version().get_untracked(), subs.iter().map(|s| read_arc_sub(s, self.c)).collect())
+    }
+    fn retain(&self) -> Box<dyn Fn() -> MObs> {
+        let (subs, ver, c) = (self.w.submissions(), self.w.version(), self.c);
+        Box::new(move || (ver.get_untracked(), subs.get_untracked().iter().map(|s| read_arc_sub(s, c)).collect()))
+    }
+    fn retain_cancel(&self) -> Box<dyn Fn(usize)> {
+        let subs = self.w.submissions();
+        Box::new(move |s| {
+            if let Some(sub) = subs.get_untracked().get(s) {
+                sub.cancel()
+            }
+        })
+    }
+    fn dispose(&self) {}
+}
+
+struct ArenaMulti<W, I: 'static, O: 'static> {
+    w: W,
+    c: Conv<I, O>,
+    of: fn(u32) -> O,
+}
+impl<W, I, O> MultiAct for ArenaMulti<W, I, O>
+where
+    W: std::ops::Deref<Target = MultiAction<I, O>>,
+    I: Clone + Send + Sync + 'static,
+    O: Clone + Send + Sync + 'static,
+{
+    fn dispatch(&self, i: u32, k: usize) {
+        self.w.dispatch((self.c.mk)(i, k))
+    }
+    fn dispatch_sync(&self, v: u32) {
+        self.w.dispatch_sync((self.of)(v))
+    }
+    fn cancel(&self, s: usize) {
+        if let Some(sub) = self.w.submissions().get_untracked().get(s) {
+            // through the arena flavour of the record
+            Submission::from(sub.clone()).cancel()
+        }
+    }
+    fn read(&self) -> MObs {
+        let subs = self.w.submissions().get_untracked();
+        let c = self.c;
+        (
+            self.w.version().get_untracked(),
+            subs.iter()
+                .map(|s| {
                     let r = Submission::from(s.clone());
                     (
-                        r.input().get_untracked(),
-                        r.value().get_untracked(),
+                        r.input().get_untracked().as_ref().map(c.inp),
+                        r.value().get_untracked().as_ref().map(c.out),
                         r.pending().get_untracked(),
                         r.canceled().get_untracked(),
                     )
-                }
-            })
-            .collect()
+                })
+                .collect(),
+        )
+    }
+    fn retain(&self) -> Box<dyn Fn() -> MObs> {
+        let (subs, ver, c) = (self.w.submissions(), self.w.version(), self.c);
+        Box::new(move || (ver.get_untracked(), subs.get_untracked().iter().map(|s| read_arc_sub(s, c)).collect()))
+    }
+    fn retain_cancel(&self) -> Box<dyn Fn(usize)> {
+        let subs = self.w.submissions();
+        Box::new(move |s| {
+            if let Some(sub) = subs.get_untracked().get(s) {
+                sub.cancel()
+            }
+        })
+    }
+    fn dispose(&self) {
+        let a: MultiAction<I, O> = *self.w;
+        a.dispose()
+    }
+}
+
+fn new_multi(kind: Kind, slot: SharedSlot) -> Box<dyn MultiAct> {
+    let f = action_fn(slot);
+    let id: fn(u32) -> u32 = |v| v;
+    match kind {
+        Kind::MultiArc => Box::new(ArcMulti { w: Plain(ArcMultiAction::new(f)), c: PLAIN, of: id }),
+        Kind::MultiArena => Box::new(ArenaMulti { w: Plain(MultiAction::new(f)), c: PLAIN, of: id }),
+        Kind::ServerMultiArc => Box::new(ArcMulti { w: ArcServerMultiAction::<Echo>::new(), c: ECHO, of: echo_of }),
+        Kind::ServerMultiArena => Box::new(ArenaMulti { w: ServerMultiAction::<Echo>::new(), c: ECHO, of: echo_of }),
+        _ => unreachable!(),
     }
 }
 
@@ -217,7 +655,11 @@ impl Multi {
 /// resolved history of a single-action case: ops as issued, polls resolved to the task id polled
 #[derive(Clone, Debug)]
 enum H {
-    Dispatch(u32),
+    /// (input, through `dispatch_local`?)
+    Dispatch(u32, bool),
+    Suppress(bool),
+    /// the arena handle is disposed (explicitly or by clean-up of its owner)
+    Dispose,
     Abort(usize),
     Drop(usize),
     Ready(usize, u32),
@@ -256,8 +698,13 @@ struct Exp {
 /// saw the abort message (whether or not its result was available too), finished when a poll saw
 /// its result and no abort message; pending = some dispatch neither finished nor aborted; version = number finished;
 /// value = result of the most recently finished one (or None after a later `clear`);
-/// input = latest dispatched input while pending, None otherwise.
+/// input = latest dispatched input while pending, None otherwise. A dispatch made while resource
+/// loading is suppressed, or through a disposed handle, is no dispatch; `clear` through a disposed
+/// handle does nothing; dispatches in flight at disposal go on being accounted for.
 fn eval_single(v0: Option<u32>, hist: &[H]) -> Exp {
+    let mut suppress = false;
+    let mut disposed = false;
+    let mut locals = (false, false);
     let mut recs: Vec<Rec> = vec![];
     let mut value = v0;
     let mut last_input = None;
@@ -266,9 +713,28 @@ fn eval_single(v0: Option<u32>, hist: &[H]) -> Exp {
     let mut completion_order: Vec<usize> = vec![];
     for (pos, h) in hist.iter().enumerate() {
         match *h {
-            H::Dispatch(i) => {
-                recs.push(Rec { handle_used: false, abort_at: None, ready_at: None, fate: Fate::Running });
-                last_input = Some(i);
+            H::Dispatch(i, local) => {
+                if disposed {
+                    tags.insert("dispatch-after-dispose");
+                } else if suppress {
+                    tags.insert("suppressed-dispatch");
+                } else {
+                    recs.push(Rec { handle_used: false, abort_at: None, ready_at: None, fate: Fate::Running });
+                    last_input = Some(i);
+                    if local {
+                        locals.1 = true;
+                        tags.insert("dispatch-local");
+                    } else {
+                        locals.0 = true;
+                    }
+                }
+            }
+            H::Suppress(b) => suppress = b,
+            H::Dispose => {
+                if !disposed {
+                    tags.insert(if recs.iter().any(|r| r.fate == Fate::Running) { "dispose-in-flight" } else { "dispose-idle" });
+                }
+                disposed = true;
             }
             H::Abort(k) => {
                 if let Some(r) = recs.get_mut(k) {
@@ -319,14 +785,24 @@ fn eval_single(v0: Option<u32>, hist: &[H]) -> Exp {
                 }
             }
             H::Clear => {
-                value = None;
-                tags.insert(if recs.iter().any(|r| r.fate == Fate::Running) { "clear-while-pending" } else { "clear" });
+                if disposed {
+                    tags.insert("clear-after-dispose");
+                } else {
+                    value = None;
+                    tags.insert(if recs.iter().any(|r| r.fate == Fate::Running) { "clear-while-pending" } else { "clear" });
+                }
             }
         }
         max_overlap = max_overlap.max(recs.iter().filter(|r| r.fate == Fate::Running).count());
     }
     if completion_order.windows(2).any(|w| w[0] > w[1]) {
         tags.insert("out-of-order");
+    }
+    if locals == (true, true) {
+        tags.insert("mixed-dispatch-local");
+    }
+    if disposed && completion_order.iter().any(|_| true) && tags.contains("dispose-in-flight") {
+        tags.insert("completed-after-dispose");
     }
     let pending = recs.iter().any(|r| r.fate == Fate::Running);
     Exp {
@@ -345,6 +821,8 @@ fn eval_single(v0: Option<u32>, hist: &[H]) -> Exp {
 #[derive(Clone, Debug)]
 enum MH {
     Dispatch(u32),
+    Suppress(bool),
+    Dispose,
     DSync(u32),
     Cancel(usize),
     Ready(usize, u32),
@@ -362,16 +840,34 @@ fn eval_multi(hist: &[MH]) -> (usize, Vec<SubRec>, BTreeSet<&'static str>) {
     let mut tasks: Vec<T> = vec![];
     let mut version = 0;
     let mut tags = BTreeSet::new();
+    let (mut suppress, mut disposed) = (false, false);
     for h in hist {
         match *h {
             MH::Dispatch(i) => {
-                tasks.push(T { sub: subs.len(), result: None, done: false });
-                subs.push((Some(i), None, true, false));
+                if disposed {
+                    tags.insert("dispatch-after-dispose");
+                } else if suppress {
+                    tags.insert("suppressed-dispatch");
+                } else {
+                    tasks.push(T { sub: subs.len(), result: None, done: false });
+                    subs.push((Some(i), None, true, false));
+                }
+            }
+            MH::Suppress(b) => suppress = b,
+            MH::Dispose => {
+                if !disposed {
+                    tags.insert(if tasks.iter().any(|t| !t.done) { "dispose-in-flight" } else { "dispose-idle" });
+                }
+                disposed = true;
             }
             MH::DSync(v) => {
-                subs.push((None, Some(v), false, false));
-                version += 1;
-                tags.insert("dsync");
+                if disposed {
+                    tags.insert("dispatch-after-dispose");
+                } else {
+                    subs.push((None, Some(v), false, false));
+                    version += 1;
+                    tags.insert("dsync");
+                }
             }
             MH::Cancel(s) => {
                 if let Some(r) = subs.get_mut(s) {
@@ -411,19 +907,31 @@ struct Live {
     v0: Option<u32>,
     started: bool,
     torn: bool,
-    single: Option<Single>,
-    multi: Option<Multi>,
-    owner: Option<Owner>,
+    single: Option<Box<dyn SingleAct>>,
+    multi: Option<Box<dyn MultiAct>>,
+    /// signals obtained under `outer` when the action was created: they survive the disposal of the handle
+    retained: Option<Box<dyn Fn() -> Obs>>,
+    mretained: Option<Box<dyn Fn() -> MObs>>,
+    mcancel: Option<Box<dyn Fn(usize)>>,
+    /// stays alive for the whole case; observers live here
+    outer: Option<Owner>,
+    /// child of `outer`; the action is created under it; `cleanup` cleans it up
+    inner: Option<Owner>,
+    /// the harness's own record of what it did (not of what the action did)
+    suppress: bool,
+    disposed: bool,
     slot: SharedSlot,
+    inputs: Vec<u32>,
     senders: Vec<Option<oneshot::Sender<u32>>>,
     handles: Vec<Option<ActionAbortHandle>>,
     body_done: Vec<Arc<AtomicBool>>,
     task_done: Vec<bool>,
     abort_live: Vec<bool>,
-    ready_live: Vec<bool>,
     fn_input_ok: bool,
     /// a poll that saw the abort message let the future's arm run (F-C17-1 regression)
     abort_lost: bool,
+    /// the handle and the signals obtained earlier disagree
+    retained_mismatch: Cell<bool>,
     hist: Vec<H>,
     mhist: Vec<MH>,
 }
@@ -431,10 +939,18 @@ struct Live {
 fn opt(v: Option<u32>) -> String {
     v.map(|v| v.to_string()).unwrap_or_else(|| "-".into())
 }
+fn val(server: bool, v: Option<u32>) -> String {
+    match v {
+        Some(v) if server && v >= ERR_BASE => format!("E{v}"),
+        v => opt(v),
+    }
+}
 
 impl Live {
     fn new() -> Self {
         sched::reset();
+        suppress_resource_load(false);
+        *STAGED.lock().unwrap() = None;
         Live {
             kind: Kind::Arc,
             v0: None,
@@ -442,18 +958,39 @@ impl Live {
             torn: false,
             single: None,
             multi: None,
-            owner: None,
+            retained: None,
+            mretained: None,
+            mcancel: None,
+            outer: None,
+            inner: None,
+            suppress: false,
+            disposed: false,
             slot: Default::default(),
+            inputs: vec![],
             senders: vec![],
             handles: vec![],
             body_done: vec![],
             task_done: vec![],
             abort_live: vec![],
-            ready_live: vec![],
             fn_input_ok: true,
             abort_lost: false,
+            retained_mismatch: Cell::new(false),
             hist: vec![],
             mhist: vec![],
+        }
+    }
+    fn drop_action(&mut self) {
+        self.single = None;
+        self.multi = None;
+        self.retained = None;
+        self.mretained = None;
+        self.mcancel = None;
+        if let Some(o) = self.inner.take() {
+            o.cleanup();
+        }
+        if let Some(o) = self.outer.take() {
+            o.cleanup();
+            o.unset();
         }
     }
     fn teardown(&mut self) {
@@ -462,57 +999,89 @@ impl Live {
         }
         self.torn = true;
         sched::reset();
+        suppress_resource_load(false);
         self.handles.clear();
         self.senders.clear();
-        self.single = None;
-        self.multi = None;
-        if let Some(o) = self.owner.take() {
-            o.cleanup();
-            o.unset();
-        }
+        self.drop_action();
+        *STAGED.lock().unwrap() = None;
     }
     fn is_multi(&self) -> bool {
-        matches!(self.kind, Kind::MultiArc | Kind::MultiArena)
+        self.kind.is_multi()
     }
     fn ensure(&mut self) {
         if self.single.is_some() || self.multi.is_some() {
             return;
         }
-        let owner = Owner::new();
-        owner.set();
-        self.owner = Some(owner);
-        if self.is_multi() {
-            self.multi = Some(Multi::new(self.kind, self.slot.clone()));
+        let outer = Owner::new();
+        outer.set();
+        let inner = outer.with(Owner::new);
+        let (kind, v0, slot) = (self.kind, self.v0, self.slot.clone());
+        if kind.is_multi() {
+            let m = inner.with(|| new_multi(kind, slot));
+            self.mretained = Some(outer.with(|| m.retain()));
+            self.mcancel = Some(outer.with(|| m.retain_cancel()));
+            self.multi = Some(m);
         } else {
-            self.single = Some(Single::new(self.kind, self.v0, self.slot.clone()));
+            let a = inner.with(|| {
+                if let (true, Some(e)) = (kind.is_server(), v0) {
+                    // what the server integration provides after a failed <form> POST was redirected back
+                    let path = if matches!(kind, Kind::ServerArcXpath | Kind::ServerArenaXpath) {
+                        "/api/some_other_fn"
+                    } else {
+                        Echo::PATH
+                    };
+                    provide_context(ServerActionError::new(path, &encoded_url_error(e)));
+                }
+                new_single(kind, v0, slot)
+            });
+            self.retained = Some(outer.with(|| a.retain()));
+            self.single = Some(a);
+        }
+        self.outer = Some(outer);
+        self.inner = Some(inner);
+    }
+    /// the initial value the property expects
+    fn spec_v0(&self) -> Option<u32> {
+        if matches!(self.kind, Kind::ServerArcXpath | Kind::ServerArenaXpath) {
+            None
+        } else {
+            self.v0
         }
     }
-    fn local(&self) -> bool {
-        matches!(self.kind, Kind::ArcLocal | Kind::ArenaLocal)
-    }
 
-    fn stage(&mut self) -> usize {
+    fn stage(&mut self, i: u32) -> usize {
         let (tx, rx) = oneshot::channel::<u32>();
         let flag = Arc::new(AtomicBool::new(false));
-        self.slot.lock().unwrap().next = Some((rx, flag.clone()));
+        let k = self.senders.len();
+        if self.kind.is_server() {
+            staged(|s| s.receivers.insert(k, (rx, flag.clone())));
+        } else {
+            self.slot.lock().unwrap().next = Some((rx, flag.clone()));
+        }
+        self.inputs.push(i);
         self.senders.push(Some(tx));
         self.body_done.push(flag);
         self.task_done.push(false);
         self.abort_live.push(false);
-        self.ready_live.push(false);
-        self.senders.len() - 1
+        k
     }
     fn after_dispatch(&mut self, i: u32) {
-        let s = self.slot.lock().unwrap();
-        if s.next.is_some() || s.seen.last() != Some(&i) {
-            self.fn_input_ok = false;
+        if !self.kind.is_server() {
+            let s = self.slot.lock().unwrap();
+            if s.next.is_some() || s.seen.last() != Some(&i) {
+                self.fn_input_ok = false;
+            }
         }
+    }
+    /// server kinds: every request the client half saw carries the input of its dispatch
+    fn requests_ok(&self) -> bool {
+        !self.kind.is_server()
+            || staged(|s| !s.bad_request && s.seen.iter().all(|(k, x)| self.inputs.get(*k) == Some(x)))
     }
     fn send_ready(&mut self, k: usize, v: u32) {
         if k < self.senders.len() && !self.task_done[k] {
             if let Some(tx) = self.senders[k].take() {
                 let _ = tx.send(v);
-                self.ready_live[k] = true;
             }
         }
     }
@@ -551,46 +1120,68 @@ impl Live {
 
     fn obs(&self) -> String {
         let rl = sched::ready().len();
+        let server = self.kind.is_server();
         if let Some(m) = &self.multi {
-            let ver = m.version();
-            let subs = m.read();
+            let kept = (self.mretained.as_ref().unwrap())();
+            let (ver, subs) = if self.disposed {
+                kept
+            } else {
+                let now = m.read();
+                if now != kept {
+                    self.retained_mismatch.set(true);
+                }
+                now
+            };
             let (ever, esubs, _) = eval_multi(&self.mhist);
             let verdict = if ver != ever {
                 "fail multi-version"
             } else if subs != esubs {
                 "fail multi-record"
-            } else if !self.fn_input_ok {
+            } else if !self.fn_input_ok || !self.requests_ok() {
                 "fail fn-input"
+            } else if self.retained_mismatch.get() {
+                "fail retained"
             } else {
                 "ok"
             };
             let show = subs
                 .iter()
-                .map(|(i, v, p, c)| format!("{}:{}:{}:{}", opt(*i), opt(*v), *p as u8, *c as u8))
+                .map(|(i, v, p, c)| format!("{}:{}:{}:{}", opt(*i), val(server, *v), *p as u8, *c as u8))
                 .collect::<Vec<_>>()
                 .join(";");
             format!("ver={ver} subs=[{show}] rl={rl} ## {verdict}")
         } else {
-            let (p, ver, val, inp) = self.single.as_ref().unwrap().read();
-            let e = eval_single(self.v0, &self.hist);
+            let kept = (self.retained.as_ref().unwrap())();
+            let (p, ver, v, inp) = if self.disposed {
+                kept
+            } else {
+                let now = self.single.as_ref().unwrap().read();
+                if now != kept {
+                    self.retained_mismatch.set(true);
+                }
+                now
+            };
+            let e = eval_single(self.spec_v0(), &self.hist);
             let verdict = if self.abort_lost {
                 "fail abort-race"
             } else if p != e.pending {
                 "fail pending"
             } else if ver != e.version {
                 "fail version"
-            } else if val != e.value {
+            } else if v != e.value {
                 "fail value"
             } else if inp != e.input {
                 "fail input"
             } else if rl == 0 && !e.untouched {
                 "fail idle-unfinished"
-            } else if !self.fn_input_ok {
+            } else if !self.fn_input_ok || !self.requests_ok() {
                 "fail fn-input"
+            } else if self.retained_mismatch.get() {
+                "fail retained"
             } else {
                 "ok"
             };
-            format!("p={} ver={ver} val={} in={} rl={rl} ## {verdict}", p as u8, opt(val), opt(inp))
+            format!("p={} ver={ver} val={} in={} rl={rl} ## {verdict}", p as u8, val(server, v), opt(inp))
         }
     }
 
@@ -608,7 +1199,7 @@ impl Live {
                 }
                 let v0 = if w.len() == 3 {
                     let Some(v) = num(w[2]) else { return bad() };
-                    if !SINGLE_KINDS.contains(k) {
+                    if kind.is_multi() || (kind.is_server() && v < ERR_BASE) {
                         return bad();
                     }
                     Some(v)
@@ -616,12 +1207,7 @@ impl Live {
                     None
                 };
                 // (a rejected op may already have created the default action)
-                self.single = None;
-                self.multi = None;
-                if let Some(o) = self.owner.take() {
-                    o.cleanup();
-                    o.unset();
-                }
+                self.drop_action();
                 self.kind = kind;
                 self.v0 = v0;
                 self.started = true;
@@ -631,13 +1217,73 @@ impl Live {
             _ => {}
         }
         self.ensure();
-        if self.is_multi() {
-            match w.as_slice() {
+        let arena = self.kind.is_arena();
+        let mut prefix = "";
+        match w.as_slice() {
+            ["suppress", b] => {
+                let b = match *b {
+                    "0" => false,
+                    "1" => true,
+                    _ => return bad(),
+                };
+                suppress_resource_load(b);
+                self.suppress = b;
+                if self.is_multi() {
+                    self.mhist.push(MH::Suppress(b));
+                } else {
+                    self.hist.push(H::Suppress(b));
+                }
+            }
+            ["dispose"] | ["cleanup"] => {
+                let explicit = w[0] == "dispose";
+                if explicit && !arena {
+                    return bad();
+                }
+                if explicit {
+                    if let Some(a) = &self.single {
+                        a.dispose()
+                    }
+                    if let Some(m) = &self.multi {
+                        m.dispose()
+                    }
+                } else if let Some(o) = &self.inner {
+                    o.cleanup();
+                }
+                if arena {
+                    self.disposed = true;
+                    if self.is_multi() {
+                        self.mhist.push(MH::Dispose);
+                    } else {
+                        self.hist.push(H::Dispose);
+                    }
+                }
+            }
+            ["obs"] => {}
+            ["idle"] => self.run_idle(),
+            ["poll", j] => {
+                let Some(j) = idx(j) else { return bad() };
+                self.poll_nth(j);
+            }
+            ["ready", k, v] => {
+                let (Some(k), Some(v)) = (idx(k), num(v)) else { return bad() };
+                self.send_ready(k, v);
+                if self.is_multi() {
+                    self.mhist.push(MH::Ready(k, v));
+                } else {
+                    self.hist.push(H::Ready(k, v));
+                }
+            }
+            _ if self.is_multi() => match w.as_slice() {
                 ["dispatch", i] => {
                     let Some(i) = num(i) else { return bad() };
-                    self.stage();
-                    self.multi.as_ref().unwrap().dispatch(i);
-                    self.after_dispatch(i);
+                    // what the harness expects from its own ops; if the real code spawns anyway,
+                    // its action function finds nothing staged
+                    let expect_spawn = !self.suppress && !self.disposed;
+                    let k = if expect_spawn { self.stage(i) } else { self.senders.len() };
+                    self.multi.as_ref().unwrap().dispatch(i, k);
+                    if expect_spawn {
+                        self.after_dispatch(i);
+                    }
                     self.mhist.push(MH::Dispatch(i));
                 }
                 ["dsync", v] => {
@@ -647,84 +1293,76 @@ impl Live {
                 }
                 ["cancel", s] => {
                     let Some(s) = idx(s) else { return bad() };
-                    self.multi.as_ref().unwrap().cancel(s);
+                    // after disposal `submissions()` through the handle panics: use the retained records
+                    if !self.disposed {
+                        self.multi.as_ref().unwrap().cancel(s);
+                    } else {
+                        (self.mcancel.as_ref().unwrap())(s);
+                    }
                     self.mhist.push(MH::Cancel(s));
                 }
-                ["ready", t, v] => {
-                    let (Some(t), Some(v)) = (idx(t), num(v)) else { return bad() };
-                    self.send_ready(t, v);
-                    self.mhist.push(MH::Ready(t, v));
-                }
-                ["poll", j] => {
-                    let Some(j) = idx(j) else { return bad() };
-                    self.poll_nth(j);
-                }
-                ["idle"] => self.run_idle(),
-                ["obs"] => {}
                 _ => return bad(),
-            }
-        } else {
-            match w.as_slice() {
-                ["dispatch", i] => {
-                    let Some(i) = num(i) else { return bad() };
-                    self.stage();
-                    let h = self.single.as_ref().unwrap().dispatch(self.local(), i);
-                    self.handles.push(Some(h));
-                    self.after_dispatch(i);
-                    self.hist.push(H::Dispatch(i));
-                }
-                ["abort", k] => {
-                    let Some(k) = idx(k) else { return bad() };
-                    if let Some(h) = self.handles.get_mut(k).and_then(|h| h.take()) {
-                        if !self.task_done[k] {
-                            self.abort_live[k] = true;
+            },
+            ["dispatch", i] | ["dispatchl", i] => {
+                let Some(i) = num(i) else { return bad() };
+                let local = w[0] == "dispatchl" || self.kind.default_local();
+                let expect_spawn = !self.suppress && !self.disposed;
+                let k = if expect_spawn { self.stage(i) } else { self.senders.len() };
+                let act = self.single.as_ref().unwrap();
+                // odd dispatches are made with the action's own (inner) owner current, even ones under the
+                // outer owner (the owner current at dispatch is the one the action's future runs under)
+                let under = if k % 2 == 1 { self.inner.clone() } else { None };
+                let call = || match &under {
+                    Some(o) => o.with(|| act.dispatch(local, i, k)),
+                    None => act.dispatch(local, i, k),
+                };
+                match catch_unwind(AssertUnwindSafe(call)) {
+                    Ok(h) => {
+                        if expect_spawn {
+                            self.handles.push(Some(h));
+                            self.after_dispatch(i);
+                        } else {
+                            // the handle of a dispatch that did nothing is inert
+                            h.abort();
                         }
-                        h.abort();
                     }
-                    self.hist.push(H::Abort(k));
+                    // `Action::dispatch` on a disposed handle panics (unwrap_signal!) before touching anything
+                    Err(_) if self.disposed => prefix = "panic-disposed ",
+                    Err(_) => return "panic ## fail panic".into(),
                 }
-                ["drop", k] => {
-                    let Some(k) = idx(k) else { return bad() };
-                    if let Some(h) = self.handles.get_mut(k).and_then(|h| h.take()) {
-                        drop(h);
-                    }
-                    self.hist.push(H::Drop(k));
-                }
-                ["ready", k, v] => {
-                    let (Some(k), Some(v)) = (idx(k), num(v)) else { return bad() };
-                    self.send_ready(k, v);
-                    self.hist.push(H::Ready(k, v));
-                }
-                ["poll", j] => {
-                    let Some(j) = idx(j) else { return bad() };
-                    self.poll_nth(j);
-                }
-                ["idle"] => self.run_idle(),
-                ["clear"] => {
-                    self.single.as_ref().unwrap().clear();
-                    self.hist.push(H::Clear);
-                }
-                ["obs"] => {}
-                _ => return bad(),
+                self.hist.push(H::Dispatch(i, local));
             }
+            ["abort", k] => {
+                let Some(k) = idx(k) else { return bad() };
+                if let Some(h) = self.handles.get_mut(k).and_then(|h| h.take()) {
+                    if !self.task_done[k] {
+                        self.abort_live[k] = true;
+                    }
+                    h.abort();
+                }
+                self.hist.push(H::Abort(k));
+            }
+            ["drop", k] => {
+                let Some(k) = idx(k) else { return bad() };
+                if let Some(h) = self.handles.get_mut(k).and_then(|h| h.take()) {
+                    drop(h);
+                }
+                self.hist.push(H::Drop(k));
+            }
+            ["clear"] => {
+                self.single.as_ref().unwrap().clear();
+                self.hist.push(H::Clear);
+            }
+            _ => return bad(),
         }
         self.started = true;
-        self.obs()
+        format!("{prefix}{}", self.obs())
     }
 
     fn tags(&self) -> Vec<String> {
         let mut t: BTreeSet<String> = BTreeSet::new();
-        let kind = match self.kind {
-            Kind::Arc => "arc",
-            Kind::ArcLocal => "arc-local",
-            Kind::ArcUnsync => "arc-unsync",
-            Kind::Arena => "arena",
-            Kind::ArenaLocal => "arena-local",
-            Kind::ArenaUnsync => "arena-unsync",
-            Kind::MultiArc => "multi-arc",
-            Kind::MultiArena => "multi-arena",
-        };
-        t.insert(kind.into());
+        t.insert(self.kind.name().into());
+        let mut extra = 0;
         if self.is_multi() {
             let (_, subs, tags) = eval_multi(&self.mhist);
             t.extend(tags.iter().map(|s| s.to_string()));
@@ -732,7 +1370,7 @@ impl Live {
                 t.insert("multi".into());
             }
         } else {
-            let e = eval_single(self.v0, &self.hist);
+            let e = eval_single(self.spec_v0(), &self.hist);
             t.extend(e.tags.iter().map(|s| s.to_string()));
             match e.max_overlap {
                 0 | 1 => {}
@@ -750,8 +1388,9 @@ impl Live {
             }
             if self.v0.is_some() {
                 t.insert("init-value".into());
+                extra += 1;
             }
-            if t.len() == 1 {
+            if t.len() == 1 + extra {
                 t.insert("plain".into());
             }
         }
@@ -838,6 +1477,9 @@ struct SimTask {
 #[derive(Default)]
 struct Sim {
     t: Vec<SimTask>,
+    arena: bool,
+    suppress: bool,
+    disposed: bool,
 }
 impl Sim {
     fn ready_list(&self) -> Vec<usize> {
@@ -846,8 +1488,20 @@ impl Sim {
     fn unfinished(&self) -> Vec<usize> {
         (0..self.t.len()).filter(|&i| !self.t[i].done).collect()
     }
+    /// does a dispatch made now spawn a task?
+    fn spawns(&self) -> bool {
+        !self.suppress && !self.disposed
+    }
     fn dispatch(&mut self) {
-        self.t.push(SimTask { woken: true, ..Default::default() });
+        if self.spawns() {
+            self.t.push(SimTask { woken: true, ..Default::default() });
+        }
+    }
+    /// `dispose` / `cleanup`
+    fn dispose(&mut self) {
+        if self.arena {
+            self.disposed = true;
+        }
     }
     fn abort(&mut self, k: usize) {
         if let Some(t) = self.t.get_mut(k) {
@@ -954,103 +1608,186 @@ impl Gen {
     }
 }
 
+fn all_single_kinds() -> Vec<&'static str> {
+    SINGLE_KINDS.iter().chain(SERVER_KINDS.iter()).copied().collect()
+}
+
+/// `kind` line of an exhaustive case: rotates over the initial-value variants
+fn kind_line(kind: &str, rot: usize) -> String {
+    if kind.ends_with("-xpath") {
+        format!("kind {kind} {}", 1000 + rot % 7)
+    } else if kind.starts_with("server-") {
+        if rot % 2 == 0 {
+            format!("kind {kind}")
+        } else {
+            format!("kind {kind} {}", 1000 + rot % 7)
+        }
+    } else if rot % 7 == 0 {
+        format!("kind {kind} 5")
+    } else {
+        format!("kind {kind}")
+    }
+}
+
 /// exhaustive small scope for the single action: every assignment of a script to each of `nd`
-/// dispatches, every interleaving of the scripts' events, the polling modes
+/// dispatches, every interleaving of the scripts' events (and of the `extras` sequences:
+/// `K` clear, `Z` dispose/cleanup, `s`/`u` suppression on/off), the polling modes
 /// E (every event processed at once: completion order = event order), L (nothing polled until
 /// the end, FIFO), F (nothing polled until the end, LIFO), P (tasks parked first, then polled one
-/// by one at the end); in L, F and P a poll may find the abort message and the result together
-fn gen_exhaustive_single(g: &mut Gen, nd: usize, scripts: &[&str], modes: &[char], with_clear: bool) {
-    let mut kind_rot = 0usize;
+/// by one at the end); in L, F and P a poll may find the abort message and the result together.
+/// Rotates over every single-action kind (plain and leptos_server wrappers), `dispatch`/`dispatch_local`,
+/// Ok/Err results for the server kinds.
+fn gen_exhaustive_single(g: &mut Gen, nd: usize, scripts: &[&str], modes: &[char], extras: &[&str]) {
+    let kinds = all_single_kinds();
+    let mut rot = 0usize;
+    let tag: String = extras.iter().map(|e| e.chars().next().unwrap()).collect();
     for assign in product(nd, scripts.len()) {
         let mut seqs: Vec<Vec<(usize, char)>> = (0..nd)
             .map(|k| std::iter::once((k, 'D')).chain(scripts[assign[k]].chars().map(|c| (k, c))).collect())
             .collect();
-        if with_clear {
-            seqs.push(vec![(0, 'K')]);
+        for e in extras {
+            seqs.push(e.chars().map(|c| (0, c)).collect());
         }
         let mut all = vec![];
         interleavings(&seqs, &mut vec![0; seqs.len()], &mut vec![], &mut all);
         for evs in all {
             for &mode in modes {
-                let mut l = vec![];
-                let kind = SINGLE_KINDS[kind_rot % SINGLE_KINDS.len()];
-                kind_rot += 1;
-                if kind_rot % 7 == 0 {
-                    l.push(format!("kind {kind} 5"));
-                } else {
-                    l.push(format!("kind {kind}"));
-                }
-                for &(k, c) in &evs {
-                    l.push(match c {
-                        'D' => format!("dispatch {}", 10 + k),
-                        'R' => format!("ready {k} {}", 100 + k),
-                        'A' => format!("abort {k}"),
-                        'X' => format!("drop {k}"),
+                let kind = kinds[rot % kinds.len()];
+                let arena = kind.contains("arena");
+                let server = kind.starts_with("server-");
+                rot += 1;
+                let mut l = vec![kind_line(kind, rot)];
+                let (mut suppress, mut disposed) = (false, false);
+                let mut task_of: Vec<Option<usize>> = vec![None; nd];
+                let mut ntasks = 0;
+                for (n, &(k, c)) in evs.iter().enumerate() {
+                    let line = match c {
+                        'D' => {
+                            if !suppress && !disposed {
+                                task_of[k] = Some(ntasks);
+                                ntasks += 1;
+                            }
+                            format!("{} {}", if (rot + n) % 3 == 0 { "dispatchl" } else { "dispatch" }, 10 + k)
+                        }
                         'K' => "clear".into(),
-                        _ => unreachable!(),
-                    });
+                        'Z' => {
+                            if arena {
+                                disposed = true;
+                            }
+                            if arena && (rot + n) % 2 == 0 { "dispose".into() } else { "cleanup".into() }
+                        }
+                        's' => {
+                            suppress = true;
+                            "suppress 1".into()
+                        }
+                        'u' => {
+                            suppress = false;
+                            "suppress 0".into()
+                        }
+                        _ => {
+                            // events of a dispatch that did not happen are not emitted
+                            let Some(t) = task_of[k] else { continue };
+                            match c {
+                                'R' => format!("ready {t} {}", if server && (rot + k) % 3 == 0 { 1100 + k } else { 100 + k }),
+                                'A' => format!("abort {t}"),
+                                'X' => format!("drop {t}"),
+                                _ => unreachable!(),
+                            }
+                        }
+                    };
+                    l.push(line);
                     if mode == 'E' || (mode == 'P' && c == 'D') {
                         l.push("idle".into());
                     }
                 }
                 match mode {
                     'F' => {
-                        for m in (0..nd).rev() {
+                        for m in (0..ntasks).rev() {
                             l.push(format!("poll {m}"));
                         }
                     }
                     'P' => {
-                        for _ in 0..nd {
+                        for _ in 0..ntasks {
                             l.push("poll 0".into());
                         }
                     }
                     _ => {}
                 }
                 l.push("idle".into());
-                g.case(&format!("x{nd}{mode}-"), &l);
+                g.case(&format!("x{nd}{mode}{tag}-"), &l);
             }
         }
     }
 }
 
-fn gen_exhaustive_multi(g: &mut Gen, nd: usize, with_sync: bool) {
+fn gen_exhaustive_multi(g: &mut Gen, nd: usize, extras: &[&str]) {
     let mut rot = 0usize;
+    let tag: String = extras.iter().map(|e| e.chars().next().unwrap()).collect();
     for assign in product(nd, MSCRIPTS.len()) {
         let mut seqs: Vec<Vec<(usize, char)>> = (0..nd)
             .map(|k| std::iter::once((k, 'D')).chain(MSCRIPTS[assign[k]].chars().map(|c| (k, c))).collect())
             .collect();
-        if with_sync {
-            seqs.push(vec![(0, 'S')]);
+        for e in extras {
+            seqs.push(e.chars().map(|c| (0, c)).collect());
         }
         let mut all = vec![];
         interleavings(&seqs, &mut vec![0; seqs.len()], &mut vec![], &mut all);
         for evs in all {
             for mode in ['E', 'L'] {
-                let mut l = vec![format!("kind {}", if rot % 2 == 0 { "multi-arc" } else { "multi-arena" })];
+                let kind = MULTI_KINDS[rot % MULTI_KINDS.len()];
+                let arena = kind.contains("arena");
+                let server = kind.starts_with("server-");
                 rot += 1;
-                let mut sub_of = vec![0usize; nd];
-                let mut nsubs = 0;
-                for &(k, c) in &evs {
-                    l.push(match c {
+                let mut l = vec![format!("kind {kind}")];
+                let (mut suppress, mut disposed) = (false, false);
+                let mut task_of: Vec<Option<(usize, usize)>> = vec![None; nd]; // (task, submission)
+                let (mut ntasks, mut nsubs) = (0, 0);
+                for (n, &(k, c)) in evs.iter().enumerate() {
+                    let line = match c {
                         'D' => {
-                            sub_of[k] = nsubs;
-                            nsubs += 1;
+                            if !suppress && !disposed {
+                                task_of[k] = Some((ntasks, nsubs));
+                                ntasks += 1;
+                                nsubs += 1;
+                            }
                             format!("dispatch {}", 10 + k)
                         }
                         'S' => {
-                            nsubs += 1;
-                            "dsync 77".into()
+                            if !disposed {
+                                nsubs += 1;
+                            }
+                            format!("dsync {}", if server && rot % 2 == 0 { 1077 } else { 77 })
                         }
-                        'R' => format!("ready {k} {}", 100 + k),
-                        'C' => format!("cancel {}", sub_of[k]),
-                        _ => unreachable!(),
-                    });
+                        'Z' => {
+                            if arena {
+                                disposed = true;
+                            }
+                            if arena && (rot + n) % 2 == 0 { "dispose".into() } else { "cleanup".into() }
+                        }
+                        's' => {
+                            suppress = true;
+                            "suppress 1".into()
+                        }
+                        'u' => {
+                            suppress = false;
+                            "suppress 0".into()
+                        }
+                        _ => {
+                            let Some((t, sub)) = task_of[k] else { continue };
+                            match c {
+                                'R' => format!("ready {t} {}", if server && (rot + k) % 3 == 0 { 1100 + k } else { 100 + k }),
+                                'C' => format!("cancel {sub}"),
+                                _ => unreachable!(),
+                            }
+                        }
+                    };
+                    l.push(line);
                     if mode == 'E' {
                         l.push("idle".into());
                     }
                 }
                 l.push("idle".into());
-                g.case(&format!("m{nd}{mode}-"), &l);
+                g.case(&format!("m{nd}{mode}{tag}-"), &l);
             }
         }
     }
@@ -1058,13 +1795,21 @@ fn gen_exhaustive_multi(g: &mut Gen, nd: usize, with_sync: bool) {
 
 fn gen_random_single(g: &mut Gen, rng: &mut Rng) {
     let mut l = vec![];
-    let kind = *rng.pick(&SINGLE_KINDS);
-    if rng.chance(1, 5) {
+    let kinds = all_single_kinds();
+    let kind = *rng.pick(&kinds);
+    let server = kind.starts_with("server-");
+    if server {
+        l.push(kind_line(kind, rng.below(14)));
+    } else if rng.chance(1, 5) {
         l.push(format!("kind {kind} {}", rng.range(1, 9)));
     } else {
         l.push(format!("kind {kind}"));
     }
-    let mut sim = Sim::default();
+    let mut sim = Sim { arena: kind.contains("arena"), ..Default::default() };
+    let result = |rng: &mut Rng| if server && rng.chance(1, 3) { rng.range(1000, 1099) } else { rng.range(100, 199) };
+    let dispatch = |rng: &mut Rng| format!("{} {}", if rng.chance(1, 3) { "dispatchl" } else { "dispatch" }, rng.range(1, 99));
+    // one case in four plays with suppression / disposal
+    let special = rng.chance(1, 4);
     let max_total = rng.range(1, 8);
     let max_overlap = *rng.pick(&[1, 2, 3, 4, 4, 4]);
     let len = rng.range(4, 40);
@@ -1072,7 +1817,7 @@ fn gen_random_single(g: &mut Gen, rng: &mut Rng) {
     // often start with a burst of overlapping dispatches
     if rng.chance(1, 2) {
         for _ in 0..max_overlap.min(max_total) {
-            l.push(format!("dispatch {}", rng.range(1, 99)));
+            l.push(dispatch(rng));
             sim.dispatch();
             if rng.chance(1, 3) {
                 l.push("idle".into());
@@ -1093,18 +1838,18 @@ fn gen_random_single(g: &mut Gen, rng: &mut Rng) {
         };
         match c {
             0..=4 => {
-                if sim.t.len() < max_total && unfinished.len() < max_overlap {
-                    l.push(format!("dispatch {}", rng.range(1, 99)));
+                if sim.t.len() < max_total && unfinished.len() < max_overlap && (sim.spawns() || rng.chance(1, 3)) {
+                    l.push(dispatch(rng));
                     sim.dispatch();
                 } else if !unfinished.is_empty() {
                     let k = *rng.pick(&unfinished);
-                    l.push(format!("ready {k} {}", rng.range(100, 199)));
+                    l.push(format!("ready {k} {}", result(rng)));
                     sim.ready(k);
                 }
             }
             5..=9 => {
                 let k = pick_task(rng, &sim);
-                l.push(format!("ready {k} {}", rng.range(100, 199)));
+                l.push(format!("ready {k} {}", result(rng)));
                 sim.ready(k);
             }
             10..=12 => {
@@ -1118,6 +1863,20 @@ fn gen_random_single(g: &mut Gen, rng: &mut Rng) {
                 sim.drop_handle(k);
             }
             14 => l.push("clear".into()),
+            15 if special => match rng.below(4) {
+                0 => {
+                    sim.suppress = !sim.suppress;
+                    l.push(format!("suppress {}", sim.suppress as u8));
+                }
+                1 => {
+                    l.push(if sim.arena && rng.chance(1, 2) { "dispose".into() } else { "cleanup".into() });
+                    sim.dispose();
+                }
+                _ => {
+                    l.push(dispatch(rng));
+                    sim.dispatch();
+                }
+            },
             15 => l.push("obs".into()),
             16 | 17 => {
                 l.push("idle".into());
@@ -1134,7 +1893,7 @@ fn gen_random_single(g: &mut Gen, rng: &mut Rng) {
     if rng.chance(4, 5) {
         for k in sim.unfinished() {
             if rng.chance(2, 3) {
-                l.push(format!("ready {k} {}", rng.range(100, 199)));
+                l.push(format!("ready {k} {}", result(rng)));
                 sim.ready(k);
             }
         }
@@ -1144,32 +1903,48 @@ fn gen_random_single(g: &mut Gen, rng: &mut Rng) {
 }
 
 fn gen_random_multi(g: &mut Gen, rng: &mut Rng) {
-    let mut l = vec![format!("kind {}", if rng.chance(1, 2) { "multi-arc" } else { "multi-arena" })];
-    let mut sim = Sim::default();
+    let kind = *rng.pick(&MULTI_KINDS);
+    let server = kind.starts_with("server-");
+    let mut l = vec![format!("kind {kind}")];
+    let mut sim = Sim { arena: kind.contains("arena"), ..Default::default() };
     let mut nsubs = 0usize;
+    let special = rng.chance(1, 4);
     let len = rng.range(3, 30);
     for _ in 0..len {
         match rng.below(16) {
             0..=3 => {
                 if sim.t.len() < 6 {
                     l.push(format!("dispatch {}", rng.range(1, 99)));
+                    if sim.spawns() {
+                        nsubs += 1;
+                    }
                     sim.dispatch();
-                    nsubs += 1;
                 }
             }
             4 => {
-                l.push(format!("dsync {}", rng.range(200, 299)));
-                nsubs += 1;
+                l.push(format!("dsync {}", if server && rng.chance(1, 3) { rng.range(1200, 1299) } else { rng.range(200, 299) }));
+                if !sim.disposed {
+                    nsubs += 1;
+                }
             }
             5..=8 => {
                 let k = rng.below(sim.t.len() + 1);
-                l.push(format!("ready {k} {}", rng.range(100, 199)));
+                l.push(format!("ready {k} {}", if server && rng.chance(1, 3) { rng.range(1000, 1099) } else { rng.range(100, 199) }));
                 sim.ready(k);
             }
             9 | 10 => l.push(format!("cancel {}", rng.below(nsubs + 1))),
             11 => {
                 l.push("idle".into());
                 sim.idle();
+            }
+            12 if special => {
+                if rng.chance(1, 2) {
+                    sim.suppress = !sim.suppress;
+                    l.push(format!("suppress {}", sim.suppress as u8));
+                } else {
+                    l.push(if sim.arena && rng.chance(1, 2) { "dispose".into() } else { "cleanup".into() });
+                    sim.dispose();
+                }
             }
             12 => l.push("obs".into()),
             _ => {
@@ -1189,22 +1964,41 @@ fn generate(seed: u64, n: usize, path: &str, tier: &str) -> std::io::Result<()> 
     let mut g = Gen { out: std::io::BufWriter::new(std::fs::File::create(path)?), cases: 0 };
     let thorough = tier == "thorough";
     // exhaustive small scope (independent of the seed)
-    gen_exhaustive_single(&mut g, 1, &SCRIPTS, &['E', 'L', 'F', 'P'], false);
-    gen_exhaustive_single(&mut g, 2, &SCRIPTS, &['E', 'L', 'F', 'P'], false);
-    gen_exhaustive_single(&mut g, 3, &SCRIPTS, &['E', 'L', 'F', 'P'], false);
-    gen_exhaustive_single(&mut g, 1, &SCRIPTS[..4], &['E', 'L', 'F'], true);
-    gen_exhaustive_single(&mut g, 2, &SCRIPTS[..4], &['E', 'L', 'F'], true);
+    gen_exhaustive_single(&mut g, 1, &SCRIPTS, &['E', 'L', 'F', 'P'], &[]);
+    gen_exhaustive_single(&mut g, 2, &SCRIPTS, &['E', 'L', 'F', 'P'], &[]);
+    gen_exhaustive_single(&mut g, 3, &SCRIPTS, &['E', 'L', 'F', 'P'], &[]);
+    gen_exhaustive_single(&mut g, 1, &SCRIPTS[..4], &['E', 'L', 'F'], &["K"]);
+    gen_exhaustive_single(&mut g, 2, &SCRIPTS[..4], &['E', 'L', 'F'], &["K"]);
     // four overlapping dispatches: complete / abort only, every order (both tiers)
-    gen_exhaustive_single(&mut g, 4, &SCRIPTS[..2], &['E', 'L', 'F', 'P'], false);
+    gen_exhaustive_single(&mut g, 4, &SCRIPTS[..2], &['E', 'L', 'F', 'P'], &[]);
+    // disposal of the handle / clean-up of its owner at every position, suppression on/off around every event
+    for nd in 1..=2 {
+        gen_exhaustive_single(&mut g, nd, &SCRIPTS[..4], &['E', 'L', 'F'], &["Z"]);
+        gen_exhaustive_single(&mut g, nd, &SCRIPTS[..4], &['E', 'L'], &["su"]);
+        gen_exhaustive_single(&mut g, nd, &SCRIPTS[..3], &['E', 'L'], &["Z", "K"]);
+        gen_exhaustive_single(&mut g, nd, &SCRIPTS[..2], &['E', 'L'], &["Z", "su"]);
+    }
+    gen_exhaustive_single(&mut g, 3, &SCRIPTS[..3], &['E', 'F'], &["Z"]);
+    gen_exhaustive_single(&mut g, 3, &SCRIPTS[..2], &['E'], &["su"]);
     if thorough {
-        gen_exhaustive_single(&mut g, 4, &SCRIPTS[..3], &['E', 'F'], false);
-        gen_exhaustive_single(&mut g, 3, &SCRIPTS[..3], &['E', 'F'], true);
+        gen_exhaustive_single(&mut g, 4, &SCRIPTS[..3], &['E', 'F'], &[]);
+        gen_exhaustive_single(&mut g, 3, &SCRIPTS[..3], &['E', 'F'], &["K"]);
+        gen_exhaustive_single(&mut g, 3, &SCRIPTS[..4], &['E', 'L', 'F'], &["Z"]);
+        gen_exhaustive_single(&mut g, 3, &SCRIPTS[..3], &['E', 'L'], &["su"]);
     }
     for nd in 1..=3 {
-        gen_exhaustive_multi(&mut g, nd, false);
+        gen_exhaustive_multi(&mut g, nd, &[]);
     }
-    gen_exhaustive_multi(&mut g, 1, true);
-    gen_exhaustive_multi(&mut g, 2, true);
+    for nd in 1..=2 {
+        gen_exhaustive_multi(&mut g, nd, &["S"]);
+        gen_exhaustive_multi(&mut g, nd, &["Z"]);
+        gen_exhaustive_multi(&mut g, nd, &["su"]);
+        gen_exhaustive_multi(&mut g, nd, &["Z", "S"]);
+    }
+    if thorough {
+        gen_exhaustive_multi(&mut g, 3, &["Z"]);
+        gen_exhaustive_multi(&mut g, 3, &["su"]);
+    }
     // random beyond
     let mut rng = Rng::new(seed);
     for _ in 0..n {
